@@ -15,7 +15,7 @@ DECIDES = ("Decided: the pairing of writers, removers and readers of Context ove
            "kinds, the two-maps-in-step discipline of _add_entity/_remove_entity (any further state attribute must be "
            "touched by every method that changes the entity table), the "
            "inner-to-outer walk of get_decl, the ordered 'decls' kind and the three query modes "
-           "of _get_declarations, all as shapes of src/ir/context.py.")
+           "of _get_declarations, all as shapes of src/ir/context.py. Also: add_x writes on every call (a guard may only skip when the stored entry is the very declaration); every map a query merges into is created by that query (never a map handed out by the table).")
 NOT_DECIDED = ("the map laws over arbitrary add/remove histories (a data-structure property over "
                "sequences of values).")
 
